@@ -4,6 +4,7 @@
    shuffle of 2+ elements, a non-ASCII trim cutset). *)
 From Coq Require Import String.
 From TW Require Export Values.
+From TW Require Import GenMisc.
 Open Scope N_scope.
 
 Inductive bres :=
@@ -124,6 +125,11 @@ Definition split (sep s : bytes) : list bytes :=
 Fixpoint repeat_bytes (n : nat) (s : bytes) : bytes :=
   match n with O => [] | S n' => s ++ repeat_bytes n' s end.
 
+(* repeatStr of evaluator/utils.go refuses (second component false) when the result would be
+   longer than maxRepeatLen (regenerated from the source); count > 0 and s <> "" here *)
+Definition repeat_too_long (s : bytes) (count : Z) : bool :=
+  (maxRepeatLen / N.of_nat (List.length s) <? Z.to_N count).
+
 (* utils.StrIsInt = strconv.Atoi succeeds: optional sign, digits, fits in int64 *)
 Definition all_digits (s : bytes) : bool :=
   match s with [] => false | _ => forallb (fun c => (48 <=? c) && (c <=? 57)) s end.
@@ -238,6 +244,7 @@ Definition addDecimals (val : bytes) (ty : bytes) (args : list value) : bres :=
     | inr e => BErr e
     | inl d =>
       if (d <=? 0)%Z then BOk (VStr val)
+      else if repeat_too_long [48] d then BErr (fmt ErrFuncResultTooLong [bs "decimal"; ty; N_to_dec maxRepeatLen])
       else if (100000 <? d)%Z then BUnmodelled
       else BOk (VStr (val ++ sep ++ repeat_bytes (Z.to_nat d) [48]))
     end
@@ -318,8 +325,10 @@ Definition builtin_str (fname : bytes) (val : bytes) (args : list value) : optio
           | [] => BErr (fmt ErrFuncRequiresOneArg [fname; ty_STRING])
           | VInt n :: _ =>
             if (n <=? 0)%Z then BOk (VStr [])
+            else match val with [] => BOk (VStr []) | _ =>
+            if repeat_too_long val n then BErr (fmt ErrFuncResultTooLong [fname; ty_STRING; N_to_dec maxRepeatLen])
             else if (100000 <? n)%Z then BUnmodelled
-            else BOk (VStr (repeat_bytes (Z.to_nat n) val))
+            else BOk (VStr (repeat_bytes (Z.to_nat n) val)) end
           | _ => BErr (fmt ErrFuncFirstArgInt [fname; ty_STRING])
           end)
   else None.
